@@ -240,6 +240,7 @@ fn main() {
         samples.join(",")
     );
     let _ = out.flush();
+    props::c19::shutdown_helper();
     // let worker threads that have been joined finish their teardown before
     // the exit-time leak check looks at the heap
     std::thread::sleep(std::time::Duration::from_millis(3));
